@@ -942,6 +942,14 @@ func (s *sys) visibility(x *actor, c, tc fsx.Call, report func(kind, want, got, 
 				continue
 			}
 
+			// An observer that lacks search permission on its own root (or above)
+			// is refused by the parent on every prefixed path: whether it "sees the
+			// change" cannot be read off the twin then; the permission difference
+			// itself is judged on the observer's own calls (kind outcome).
+			if s.rootSearchable(y, s.lastDump) != "searchable" {
+				continue
+			}
+
 			py := stripDir(y.dir, tp)
 
 			s.mirror(y)
@@ -957,7 +965,7 @@ func (s *sys) visibility(x *actor, c, tc fsx.Call, report func(kind, want, got, 
 
 				report("visibility", cw, cg,
 					fmt.Sprintf("%s reads %q after the change and sees %q; the twin parent (as %s) reads %q and sees %q", y.name, py, got, y.user, tp, want),
-					"observer", y.kind, "viewroot", s.rootSearchable(y, s.lastDump))
+					"observer", y.kind)
 			}
 		}
 	}
